@@ -333,6 +333,9 @@ def emit_reads(p, rng, v, numrecs, coll, nprocs, tagset, written=None):
             texts[r] = rw_text('get', form, coll, v, mt, lay, st, ct, sd, None, None)
     if texts:
         p.per_rank(texts)
+        # ranks run freely between collectives: without this barrier a rank that has nothing to read could
+        # already be writing the next phase while the others are still reading this one
+        p.all('barrier')
 
 
 def gen_rw_program(rng, path, nprocs, step0=0, hints='-', fill=None, reopen=True, fmt=None):
